@@ -7,6 +7,9 @@ import json, os, shutil, subprocess, sys, time
 
 VERIF = os.path.dirname(os.path.dirname(os.path.abspath(__file__)))
 SEEDED = os.path.join(VERIF, "seeded")
+# regression sweeps run from a snapshot (vp run --with-repo) against a snapshot of the repository: SEED_REPO names it and the
+# snapshot's harness is pointed at it.  Registered checks and recorded detections always use /repo itself.
+REPO = os.environ.get("SEED_REPO", "/repo")
 
 
 def sh(cmd, cwd=None, timeout=3600):
@@ -71,12 +74,12 @@ def detect(name, props=None):
     dst = os.path.join(SEEDED, name)
     meta = json.load(open(os.path.join(dst, "meta.json")))
     props = props or [meta["property"]]
-    rc, out = sh("git status --porcelain", cwd="/repo")
+    rc, out = sh("git status --porcelain", cwd=REPO)
     if out.strip():
-        return {"error": "/repo not clean"}
+        return {"error": "%s not clean" % REPO}
     results = meta.get("detection", {})
     try:
-        rc, out = sh("git apply %s" % os.path.join(dst, "patch.diff"), cwd="/repo")
+        rc, out = sh("git apply %s" % os.path.join(dst, "patch.diff"), cwd=REPO)
         if rc != 0:
             return {"error": "apply failed " + out[-200:]}
         for p in props:
@@ -87,15 +90,39 @@ def detect(name, props=None):
             results[p] = {"exit": rc, "detected": rc == 1 and bool(viol), "first_reason": reasons[0] if reasons else "",
                           "wall_s": round(time.time() - t0), "tool_error": [l for l in out.splitlines() if l.startswith("TOOL-ERROR")][:1]}
     finally:
-        sh("git checkout -- .", cwd="/repo")
+        sh("git checkout -- .", cwd=REPO)
+    if REPO != "/repo":
+        return results
     meta["detection"] = results
     meta["ran"] = meta.get("ran", []) + ["git -C /repo apply seeded/%s/patch.diff; ./check %s quick; git -C /repo checkout -- ." % (name, " ".join(props))]
     json.dump(meta, open(os.path.join(dst, "meta.json"), "w"), indent=1)
     return results
 
 
+def sweep(names=None):
+    """re-run every stored seed against the check(s) recorded as catching it; prints one line per seed and a summary"""
+    if REPO != "/repo":
+        ct = os.path.join(VERIF, "harness", "Cargo.toml")
+        t = open(ct).read().replace('"/repo/', '"%s/' % REPO)
+        open(ct, "w").write(t)
+    names = names or sorted(os.listdir(SEEDED))
+    missed = []
+    for n in names:
+        meta = json.load(open(os.path.join(SEEDED, n, "meta.json")))
+        det = meta.get("detection", {})
+        props = [p for p, r in det.items() if r.get("detected")] or [meta["property"]]
+        r = detect(n, props[:1])
+        ok = any(x.get("detected") for x in r.values()) if "error" not in r else False
+        print("%s %s %s" % (n, "caught" if ok else "MISSED", json.dumps(r)[:300]), flush=True)
+        if not ok:
+            missed.append(n)
+    print("SWEEP %d seeds, %d missed: %s" % (len(names), len(missed), " ".join(missed)), flush=True)
+
+
 if __name__ == "__main__":
-    if sys.argv[1] == "confirm":
+    if sys.argv[1] == "sweep":
+        sweep(sys.argv[2:] or None)
+    elif sys.argv[1] == "confirm":
         print(json.dumps(confirm(*sys.argv[2:])))
     elif sys.argv[1] == "detect":
         print(json.dumps(detect(sys.argv[2], sys.argv[3:] or None)))
